@@ -314,7 +314,8 @@ def r9e_name_search_uses_identifier(ctx):
                 continue
             n += 1
             calls = _slice_calls(crate, f, c["args"][idx[-1] - 1])
-            local = sorted(x.split("::")[-1] for x in calls if x in crate.fns and x not in searching)
+            from .r6 import pure_destructurer
+            local = sorted(x.split("::")[-1] for x in calls if x in crate.fns and x not in searching and not pure_destructurer(crate, crate.fns[x]))
             key = "R9e|%s|searched name is computed" % f.root
             if local:
                 r.violate(key, "%s looks up a name at %s that comes out of %s, not out of the AST node at that place" % (
